@@ -15,23 +15,65 @@ import (
 	"cuelang.org/go/cue/token"
 )
 
-// c1FailingArrangement searches k rearrangements of src for one whose canonical form differs
-// (with class want). Returns the texts of the rearranged program.
-func c1FailingArrangement(src string, want string, k int, seed uint64) ([]string, string, bool) {
+// c1arr: a rearrangement recipe (generator state + kinds), so that the arrangement that
+// failed can be tried first on every shrunk candidate.
+type c1arr struct {
+	rng   Rng
+	kinds map[string]bool
+}
+
+type c1fail struct {
+	texts []string
+	diff  string
+	found map[string]bool
+	cls    string
+	byRule bool
+	paths  map[string]bool // differing paths
+	kinds  map[string]bool // kinds of difference // class decided by the runner's own test (marks stripped / corpus list shape)
+}
+
+// c1FailingArrangement searches the preferred recipes and then k random rearrangements of src
+// for one whose canonical form differs with class want.
+func c1FailingArrangement(p c1prog, want string, k int, seed uint64, pref []c1arr) (c1fail, bool) {
+	return c1failingArrangement(p, want, k, seed, pref, false, nil)
+}
+
+// with simplest=true all candidates are tried and the arrangement produced by the fewest kinds
+// of rewrite (sole-embedding wraps last) is returned.
+// With within != nil the class may be ANY known class, but the failure must be (part of) the
+// original one: every differing path and kind of difference occurs in `within`.
+func c1failingArrangement(p c1prog, want string, k int, seed uint64, pref []c1arr, simplest bool, within *c1fail) (c1fail, bool) {
+	var best c1fail
+	bestCost := 1 << 30
+	src := p.src
 	base, ok := c1EvalTimeout([]string{src}, 5*time.Second)
 	if !ok || base.err != "" || base.canon == "_|_(eval)" {
-		return nil, "", false
+		return c1fail{}, false
 	}
 	x := &c1runner{timeout: 5 * time.Second}
-	p := c1prog{name: "min", stream: "gen", src: src}
 	r := NewRng(seed)
-	for j := 0; j < k; j++ {
-		rr := r.Sub()
-		kinds := c1kinds(c1allKinds...)
-		if j%2 == 1 {
-			kinds = c1kinds(Pick(rr, c1allKinds))
+	nk := len(c1allKinds)
+	for j := 0; j < len(pref)+nk+k; j++ {
+		var rr *Rng
+		var kinds map[string]bool
+		prob := 40
+		if j < len(pref) {
+			cp := pref[j].rng
+			rr, kinds = &cp, pref[j].kinds
+		} else if j < len(pref)+nk {
+			// one kind of rewrite, applied almost everywhere
+			rr, kinds, prob = r.Sub(), c1kinds(c1allKinds[j-len(pref)]), 90
+		} else {
+			rr = r.Sub()
+			kinds = c1kinds(c1allKinds...)
+			switch j % 3 {
+			case 1:
+				kinds = c1kinds(Pick(rr, c1allKinds))
+			case 2:
+				kinds = c1kinds(Pick(rr, c1allKinds), Pick(rr, c1allKinds))
+			}
 		}
-		texts, applied, err := c1Rearrange(src, rr, kinds, 40)
+		texts, applied, err := c1Rearrange(src, rr, kinds, prob)
 		if err != nil {
 			continue
 		}
@@ -41,18 +83,61 @@ func c1FailingArrangement(src string, want string, k int, seed uint64) ([]string
 		}
 		diffs := c1Diffs(base.info.paths, res.info.paths)
 		cls := x.class(p, texts, base.canon, res.canon, applied)
+		byRule := cls != ""
+		var found map[string]bool
 		if cls == "" {
-			cls = c1classByDiff(p, base, res, diffs, texts...)
+			cls, found = c1classify(p, base, res, diffs, texts...)
 		}
-		if cls == want {
-			return texts, c1diffString(diffs), true
+		match := cls == want
+		if within != nil {
+			match = cls != ""
+			for _, d := range diffs {
+				if !within.paths[d.path] || !within.kinds[d.kind] {
+					match = false
+				}
+			}
+		}
+		if match {
+			f := c1fail{texts: texts, diff: c1diffString(diffs), found: found, cls: cls, byRule: byRule,
+				paths: map[string]bool{}, kinds: map[string]bool{}}
+			for _, d := range diffs {
+				f.paths[d.path], f.kinds[d.kind] = true, true
+			}
+			if !simplest {
+				return f, true
+			}
+			cost := 0
+			for kd, n := range applied {
+				if n > 0 {
+					cost += 10
+					if kd == "wrap" {
+						cost += 25
+					}
+					if kd == "files" {
+						cost += 5
+					}
+				}
+			}
+			cost = cost*1000 + len(strings.Join(texts, ""))
+			if cost < bestCost {
+				best, bestCost = f, cost
+			}
 		}
 	}
-	return nil, "", false
+	if bestCost < 1<<30 {
+		return best, true
+	}
+	return c1fail{}, false
 }
 
 // c1edit applies the n-th candidate edit to src; ok=false when there are fewer candidates.
-func c1edit(src string, n int) (string, bool) {
+func c1edit(src string, n int) (out string, more bool) {
+	defer func() {
+		if recover() != nil {
+			// an edit the syntax tree does not support at that position: skip it
+			out, more = src, true
+		}
+	}()
 	f, err := c1parse(src)
 	if err != nil {
 		return "", false
@@ -80,6 +165,10 @@ func c1edit(src string, n int) (string, bool) {
 			for j := range x.Decls {
 				if hit() {
 					x.Decls = append(x.Decls[:j:j], x.Decls[j+1:]...)
+					return false
+				}
+				if body := c1comprBody(x.Decls[j]); body != nil && hit() {
+					x.Decls[j] = &ast.EmbedDecl{Expr: body}
 					return false
 				}
 			}
@@ -125,6 +214,10 @@ func c1edit(src string, n int) (string, bool) {
 					x.Elts = append(x.Elts[:j:j], x.Elts[j+1:]...)
 					return false
 				}
+				if body := c1comprBody(x.Elts[j]); body != nil && hit() {
+					x.Elts[j] = &ast.EmbedDecl{Expr: body}
+					return false
+				}
 			}
 			// a struct holding a single embedding: unwrap
 			if len(x.Elts) == 1 {
@@ -161,32 +254,55 @@ func c1edit(src string, n int) (string, bool) {
 	return t, true
 }
 
-// c1MinimiseProg returns a locally minimal program with a failing arrangement of class want.
-func c1MinimiseProg(src string, want string, budget time.Duration) (string, []string, string) {
-	deadline := time.Now().Add(budget)
-	texts, diff, ok := c1FailingArrangement(src, want, 24, 1)
-	if !ok {
-		return src, nil, ""
+// c1comprBody: the body of a comprehension in declaration position (nil otherwise).
+func c1comprBody(d ast.Decl) *ast.StructLit {
+	switch d := d.(type) {
+	case *ast.Comprehension:
+		if b, ok := d.Value.(*ast.StructLit); ok {
+			return b
+		}
+	case *ast.EmbedDecl:
+		if c, ok := d.Expr.(*ast.Comprehension); ok {
+			if b, ok := c.Value.(*ast.StructLit); ok {
+				return b
+			}
+		}
 	}
+	return nil
+}
+
+// c1MinimiseProg returns a locally minimal program with a failing arrangement of class want.
+func c1MinimiseProg(p c1prog, want string, budget time.Duration, pref []c1arr) (c1prog, c1fail, bool) {
+	deadline := time.Now().Add(budget)
+	best, ok := c1FailingArrangement(p, want, 24, 1, pref)
+	if !ok {
+		return p, c1fail{}, false
+	}
+	orig := best
 	for changed := true; changed && time.Now().Before(deadline); {
 		changed = false
 		for n := 0; time.Now().Before(deadline); n++ {
-			cand, ok := c1edit(src, n)
+			cand, ok := c1edit(p.src, n)
 			if !ok {
 				break
 			}
-			if cand == src || len(cand) >= len(src)+4 {
+			if cand == p.src || len(cand) >= len(p.src)+4 {
 				continue
 			}
-			if t2, d2, ok := c1FailingArrangement(cand, want, 16, 1); ok {
-				src, texts, diff = cand, t2, d2
+			q := p
+			q.src = cand
+			if f2, ok := c1failingArrangement(q, want, 12, 1, pref, false, &orig); ok {
+				p, best = q, f2
 				changed = true
 				n--
 			}
 		}
 	}
-	// finally prefer an arrangement produced by a single kind of rearrangement, if any
-	return src, texts, diff
+	// finally the simplest arrangement that still fails
+	if f2, ok := c1failingArrangement(p, want, 60, 7, pref, true, &orig); ok {
+		best = f2
+	}
+	return p, best, true
 }
 
 func c1Minimise(src string, r *Rng) {
@@ -195,6 +311,10 @@ func c1Minimise(src string, r *Rng) {
 		want = strings.TrimSpace(src[len("//class="):i])
 		src = src[i+1:]
 	}
-	m, texts, diff := c1MinimiseProg(src, want, 120*time.Second)
-	fmt.Printf("minimal P:\n%s\nP':\n%s\ndiff: %s\n", m, strings.Join(texts, "\n-- next file --\n"), diff)
+	m, f, ok := c1MinimiseProg(c1prog{name: "min", stream: "gen", src: src}, want, 120*time.Second, nil)
+	if !ok {
+		fmt.Println("no failing arrangement of class", want, "found")
+		return
+	}
+	fmt.Printf("minimal P:\n%s\nP':\n%s\ndiff: %s\n", m.src, strings.Join(f.texts, "\n-- next file --\n"), f.diff)
 }
